@@ -14,6 +14,7 @@ SPEC = {
     "min_evaluations": 100000,
     "min_classes": 200,
     "required_classes": ["gcd:u64:*", "gcd:i8:*", "log2i:u64:bit63", "log2i:u8:bit7", "log2i:i16:bit14", "random_int:*",
-                         "random_data:>8192", "v2:*", "v3:*", "v4:*", "matrix:int:*", "matrix:dominant:*"],
+                         "random_data:>8192", "v2:*", "v3:*", "v4:*", "matrix:int:*", "matrix:dominant:*", "log2i:ulonglong:bit63", "log2i:longlong:bit62",
+                         "vector2d:float:eq:*", "vector4d:float:*"],
     "assumptions": ASSUME_COMMON + ["random_data 'every position rewritten' monitor has a 256^-8 per-position false-alarm probability"],
 }
